@@ -127,7 +127,7 @@ def fracBuf (places : Nat) (f : Str) : Str :=
 
 /-- `f64.FromString[T]`, the `switch parts[0]`: the scaled integer part and the sign flag, `none` = error -/
 def head64 (mult : Int) (p0 : Str) : Option (Int × Bool) :=
-  if p0 = [] then some (0, false)
+  if p0 = [] ∨ p0 = [43] then some (0, false)     -- case "", "+"
   else if p0 = [45] ∨ p0 = [45, 48] then some (0, true)
   else match parseInt64 p0 with
     | none => none
@@ -157,7 +157,7 @@ def fromStr64 (places : Nat) (mult : Int) (str : Str) : Res :=
 
 /-- `f128.FromString[T]` (big.Int arithmetic), the `switch parts[0]` -/
 def head128 (mult : Int) (p0 : Str) : Option (Int × Bool) :=
-  if p0 = [] then some (0, false)
+  if p0 = [] ∨ p0 = [43] then some (0, false)     -- case "", "+"
   else if p0 = [45] ∨ p0 = [45, 48] then some (0, true)
   else match parseSigned p0 with
     | none => none
